@@ -29,6 +29,10 @@ pub struct Case {
     pub mat: MatSpec,
     pub seq: SeqSpec,
     pub arm: Arm,
+    /// the forward matrix object is USED before it is reverse-complemented (discretised, scanned,
+    /// its score distribution built): whatever an object memoises must not leak into its mirror image
+    #[serde(default)]
+    pub used_before: bool,
 }
 
 pub struct RevComp;
@@ -55,7 +59,7 @@ impl Sub for RevComp {
         "revcomp"
     }
     fn rule(&self) -> &'static str {
-        "DNA count matrix (width 0..30, any content incl. wildcard counts) x strand-symmetric pseudocounts and background x arbitrary scoring matrix (finite / -inf cells, finite wildcard column) x DNA sequence (L 0..300); (i) rc(rc(X)) == X exactly and rc(X) == the mirrored model for count, frequency, weight and scoring matrices; (ii) rc commutes with to_freq / to_weight / to_scoring (tol 1e-5); (iii) min_score / max_score of rc(pssm) equal those of pssm; (iv) score_rc[L-M-i] on rc(seq) == score[i] on seq within the summation bound, through the generic scorer and the dispatcher forced to an arm; non-trivial = M >= 2 and rc(X) != X"
+        "DNA count matrix (width 0..30, any content incl. wildcard counts) x strand-symmetric pseudocounts and background x arbitrary scoring matrix (finite / -inf cells, finite wildcard column) x DNA sequence (L 0..300); (i) rc(rc(X)) == X exactly and rc(X) == the mirrored model for count, frequency, weight and scoring matrices; (ii) rc commutes with to_freq / to_weight / to_scoring (tol 1e-5); (iii) min_score / max_score of rc(pssm) equal those of pssm; (iv) score_rc[L-M-i] on rc(seq) == score[i] on seq within the summation bound, through the generic scorer and the dispatcher forced to an arm; (v) in half of the cases the forward object is first discretised / scanned / given a score distribution, and rc(pssm).to_discrete(), Scanner hits and Scanner::max over rc(pssm) must equal those of an equal, freshly built matrix; non-trivial = M >= 2 and rc(X) != X"
     }
     fn cases(&self, tier: Tier) -> u64 {
         tier.pick(60_000, 1_500_000)
@@ -68,8 +72,9 @@ impl Sub for RevComp {
             mat_strategy(Abc::Dna, prop_oneof![1 => Just(1usize), 8 => 2usize..=30].boxed(), Regimes::ALL),
             seq_strategy(5, (0usize..=300).boxed()),
             arm_strategy(),
+            any::<bool>(),
         )
-            .prop_map(|(counts, p, bg, mat, seq, arm)| Case { counts, pseudo: (Fl(p.0), Fl(p.1), Fl(p.2)), bg, mat, seq, arm })
+            .prop_map(|(counts, p, bg, mat, seq, arm, used_before)| Case { counts, pseudo: (Fl(p.0), Fl(p.1), Fl(p.2)), bg, mat, seq, arm, used_before })
             .boxed()
     }
     fn check(&self, case: &Case, _cx: &Cx) -> Verdict {
@@ -149,6 +154,21 @@ impl Sub for RevComp {
         let cells = case.mat.cells();
         let mm = cells.len();
         let pssm: ScoringMatrix<Dna> = build_pssm::<Dna>(&case.mat);
+        let idx0 = case.seq.expand(5);
+        if case.used_before && mm >= 1 {
+            // use the forward object first: discretise it, scan with it, build its score distribution
+            let _ = pssm.to_discrete();
+            let mut fwd: StripedSequence<Dna, U32> = Pipeline::<Dna, _>::generic().stripe(&syms::<Dna>(&idx0));
+            fwd.configure(&pssm);
+            let _g = case.arm.force();
+            let mut sc = lightmotif::scan::Scanner::new(&pssm, &fwd);
+            sc.threshold(pssm.max_score() / 2.0);
+            let _ = sc.next();
+            let _ = sc.max();
+            if mm <= 12 {
+                let _ = pssm.to_score_distribution();
+            }
+        }
         let prc = pssm.reverse_complement();
         if prc.reverse_complement() != pssm {
             return Verdict::Fail(Failure::new("scoring:involution", "rc(rc(pssm)) != pssm".to_string()));
@@ -187,6 +207,43 @@ impl Sub for RevComp {
                 let _g = case.arm.force();
                 prc.score(&striped).unstripe()
             };
+            // everything derived from rc(pssm) must be what an independently built matrix with the same
+            // cells and background gives: the discrete matrix, and what a scanner yields on the reverse strand
+            let fresh = ScoringMatrix::<Dna>::new(prc.background().clone(), prc.matrix().clone());
+            let (da, db) = (prc.to_discrete(), fresh.to_discrete());
+            info.comparisons += 1;
+            if da.matrix() != db.matrix() || (0..4).any(|q| da.scale(q as f32 * 1.5 - 2.0) != db.scale(q as f32 * 1.5 - 2.0)) {
+                return Verdict::Fail(Failure::new("scoring:discrete-of-rc", "rc(pssm).to_discrete() differs from the discrete matrix of an equal, freshly built scoring matrix".to_string()));
+            }
+            {
+                let _g = case.arm.force();
+                let mut sorted: Vec<f32> = g.iter().cloned().filter(|x| x.is_finite()).collect();
+                sorted.sort_by(|a, b| a.partial_cmp(b).unwrap());
+                let t = if sorted.is_empty() { 0.0 } else { sorted[sorted.len() * 3 / 4] };
+                let collect = |m: &ScoringMatrix<Dna>| {
+                    let mut sc = lightmotif::scan::Scanner::new(m, &striped);
+                    sc.threshold(t);
+                    let mut v: Vec<(usize, u32)> = sc.map(|h| (h.position(), h.score().to_bits())).collect();
+                    v.sort_unstable();
+                    v
+                };
+                let (ha, hb) = (collect(&prc), collect(&fresh));
+                info.comparisons += 1;
+                if ha != hb {
+                    return Verdict::Fail(Failure::new(
+                        "scanner:rc-vs-fresh",
+                        format!("a scanner over rc(pssm) yields {} hits at threshold {}, over an equal freshly built matrix {} hits", ha.len(), t, hb.len()),
+                    ));
+                }
+                let best = |m: &ScoringMatrix<Dna>| {
+                    let mut sc = lightmotif::scan::Scanner::new(m, &striped);
+                    sc.threshold(t);
+                    sc.max().map(|h| h.score().to_bits())
+                };
+                if best(&prc) != best(&fresh) {
+                    return Verdict::Fail(Failure::new("scanner:rc-vs-fresh", "Scanner::max over rc(pssm) differs from the one over an equal freshly built matrix".to_string()));
+                }
+            }
             if g.len() != n || d.len() != n {
                 return Verdict::Fail(Failure::new("scores:count", format!("{} / {} scores on the reverse strand, expected {}", g.len(), d.len(), n)));
             }
@@ -210,6 +267,7 @@ impl Sub for RevComp {
         info.class_if(l < mm, "L<M");
         info.class_if(cells.iter().any(|r| r[4].is_finite() && r[4] != 0.0), "wildcard-column-non-zero");
         info.class_if(m == 0, "counts-M=0");
+        info.class_if(case.used_before, "forward-object-used-before-rc");
         info.class(case.arm.name());
         Verdict::Pass(info)
     }
